@@ -19,7 +19,7 @@ import (
 // (the patch) or a store into Package.lambdas under the same function (the placeholder's creation).
 func c08register(c *core.Ctx, r *core.Reporter) {
 	const rule = "C08.register"
-	r.Rule(rule, "every function of package slip that registers a freshly allocated FuncInfo in a Package.funcs map also rewrites (Forms of) the Lambda found under that name in Package.lambdas, or creates that entry: otherwise calls compiled before the definition stay bound to the undefined placeholder", 3)
+	r.Rule(rule, "every store of a freshly allocated FuncInfo into the funcs table of a package is accompanied, in the same function, by a rewrite (Forms of the Lambda found under that name) or the creation of the entry in the lambdas table of that same package, directly or through a method called on that package: otherwise calls compiled before the definition stay bound to the undefined placeholder", 5)
 	var fns []*ssa.Function
 	for _, fn := range c.ModuleFuncs() {
 		p := fn.Pkg
@@ -32,85 +32,96 @@ func c08register(c *core.Ctx, r *core.Reporter) {
 	}
 	sort.Slice(fns, func(i, j int) bool { return core.SSAName(fns[i]) < core.SSAName(fns[j]) })
 	for _, fn := range fns {
-		if !registersFreshFuncInfo(fn) {
-			continue
+		n := 0
+		for _, b := range fn.Blocks {
+			for _, in := range b.Instrs {
+				mu, ok := in.(*ssa.MapUpdate)
+				if !ok {
+					continue
+				}
+				owner := packageOfTable(mu.Map, "funcs")
+				if owner == nil {
+					continue
+				}
+				if al, ok := mu.Value.(*ssa.Alloc); !ok || !core.IsNamed(al.Type(), core.SlipPath, "FuncInfo") {
+					continue
+				}
+				n++
+				ok2 := patchesLambdasOf(fn, owner, 0, map[*ssa.Function]bool{})
+				r.Decide(ok2, rule, fmt.Sprintf("%s|registration #%d", core.SSAName(fn), n), c.Pos(mu.Pos()), fmt.Sprintf("a fresh FuncInfo is stored in a package's funcs; the lambdas entry of the same package is rewritten or created: %v", ok2))
+			}
 		}
-		ok := reachesLambdaPatch(fn, 0, map[*ssa.Function]bool{})
-		r.Decide(ok, rule, core.SSAName(fn), c.Pos(fn.Pos()), fmt.Sprintf("registers a fresh FuncInfo in Package.funcs; rewrites or creates the Package.lambdas entry of the name: %v", ok))
 	}
+}
+
+// packageOfTable: v is a load of field `field` of a Package; returns the package value.
+func packageOfTable(v ssa.Value, field string) ssa.Value {
+	u, ok := v.(*ssa.UnOp)
+	if !ok {
+		return nil
+	}
+	fa, ok := u.X.(*ssa.FieldAddr)
+	if !ok || !core.IsNamed(fa.X.Type(), core.SlipPath, "Package") || fieldName(fa) != field {
+		return nil
+	}
+	return fa.X
 }
 
 func isPackageMapField(v ssa.Value, field string) bool {
-	// v is the map operand: a load of a FieldAddr of Package.<field>
-	u, ok := v.(*ssa.UnOp)
-	if !ok {
-		return false
-	}
-	fa, ok := u.X.(*ssa.FieldAddr)
-	if !ok || !core.IsNamed(fa.X.Type(), core.SlipPath, "Package") {
-		return false
-	}
-	return fieldName(fa) == field
+	return packageOfTable(v, field) != nil
 }
 
-func registersFreshFuncInfo(fn *ssa.Function) bool {
-	for _, b := range fn.Blocks {
-		for _, in := range b.Instrs {
-			mu, ok := in.(*ssa.MapUpdate)
-			if !ok || !isPackageMapField(mu.Map, "funcs") {
-				continue
-			}
-			if al, ok := mu.Value.(*ssa.Alloc); ok && core.IsNamed(al.Type(), core.SlipPath, "FuncInfo") {
-				return true
-			}
-		}
-	}
-	return false
-}
-
-func lambdaFromLambdasMap(v ssa.Value, depth int) bool {
+func lambdaFromLambdasOf(v ssa.Value, owner ssa.Value, depth int) bool {
 	if depth > 6 {
 		return false
 	}
 	switch x := v.(type) {
 	case *ssa.Lookup:
-		return isPackageMapField(x.X, "lambdas")
+		o := packageOfTable(x.X, "lambdas")
+		return o != nil && sameValue(o, owner)
 	case *ssa.Extract:
-		return lambdaFromLambdasMap(x.Tuple, depth+1)
+		return lambdaFromLambdasOf(x.Tuple, owner, depth+1)
 	case *ssa.Phi:
 		for _, e := range x.Edges {
-			if lambdaFromLambdasMap(e, depth+1) {
+			if lambdaFromLambdasOf(e, owner, depth+1) {
 				return true
 			}
 		}
 	case *ssa.UnOp:
-		return lambdaFromLambdasMap(x.X, depth+1)
+		return lambdaFromLambdasOf(x.X, owner, depth+1)
 	}
 	return false
 }
 
-func reachesLambdaPatch(fn *ssa.Function, depth int, seen map[*ssa.Function]bool) bool {
-	if fn == nil || seen[fn] || depth > 2 || fn.Blocks == nil {
+// patchesLambdasOf: fn stores into owner.lambdas, or into Forms of a Lambda looked up in owner.lambdas, or
+// calls a method of package slip with owner as receiver that does so on its receiver.
+func patchesLambdasOf(fn *ssa.Function, owner ssa.Value, depth int, seen map[*ssa.Function]bool) bool {
+	if fn == nil || depth > 2 || fn.Blocks == nil {
 		return false
 	}
-	seen[fn] = true
 	for _, b := range fn.Blocks {
 		for _, in := range b.Instrs {
 			switch x := in.(type) {
 			case *ssa.MapUpdate:
-				if isPackageMapField(x.Map, "lambdas") {
+				if o := packageOfTable(x.Map, "lambdas"); o != nil && sameValue(o, owner) {
 					return true
 				}
 			case *ssa.Store:
 				if fa, ok := x.Addr.(*ssa.FieldAddr); ok && fieldName(fa) == "Forms" &&
-					core.IsNamed(fa.X.Type(), core.SlipPath, "Lambda") && lambdaFromLambdasMap(fa.X, 0) {
+					core.IsNamed(fa.X.Type(), core.SlipPath, "Lambda") && lambdaFromLambdasOf(fa.X, owner, 0) {
 					return true
 				}
 			case ssa.CallInstruction:
-				if cal := x.Common().StaticCallee(); cal != nil && cal.Pkg != nil && cal.Pkg.Pkg.Path() == core.SlipPath {
-					if reachesLambdaPatch(cal, depth+1, seen) {
-						return true
-					}
+				cal := x.Common().StaticCallee()
+				if cal == nil || cal.Pkg == nil || cal.Pkg.Pkg.Path() != core.SlipPath || cal.Signature.Recv() == nil || len(x.Common().Args) == 0 {
+					continue
+				}
+				if !sameValue(x.Common().Args[0], owner) || len(cal.Params) == 0 || seen[cal] {
+					continue
+				}
+				seen[cal] = true
+				if patchesLambdasOf(cal, cal.Params[0], depth+1, seen) {
+					return true
 				}
 			}
 		}
@@ -230,4 +241,88 @@ func testsDocNil(fn *ssa.Function) bool {
 		}
 	}
 	return false
+}
+
+// c08canon: "redefine a function between evaluations": compiled calls hold the *Lambda they will run. The
+// package patches the lambda registered first under the name (C08.patch), so every call, whenever it was
+// compiled, must hold that registered lambda. A creator handed to DefLambda builds calls on the lambda of the
+// definition being made; where an older lambda is registered, the creator stored in FuncInfo.Create must be a
+// closure over that registered lambda (it re-points the calls it creates). Before 1769684 the bare creator was
+// stored: (defun g () (f)) (defun f () 1) (defun h () (f)) (defun f () 2) (h) => 1.
+func c08canon(c *core.Ctx, r *core.Reporter) {
+	const rule = "C08.canon"
+	r.Rule(rule, "where Package.DefLambda finds a lambda already registered under the name, the creator it stores into FuncInfo.Create is a closure over that registered lambda, so calls compiled from then on are bound to the same lambda as the calls compiled before", 1)
+	fnObj := c.LookupFunc("", "Package.DefLambda")
+	if fnObj == nil {
+		r.Undecided(rule, "slip.(Package).DefLambda", "-", "anchor does not resolve")
+		return
+	}
+	fn := c.SSAFunc(fnObj)
+	// the closures that capture a lambda read from the lambdas table
+	capturing := map[ssa.Value]bool{}
+	for _, b := range fn.Blocks {
+		for _, in := range b.Instrs {
+			mc, ok := in.(*ssa.MakeClosure)
+			if !ok {
+				continue
+			}
+			for _, bd := range mc.Bindings {
+				if core.IsNamed(bd.Type(), core.SlipPath, "Lambda") && fromMapLookup(bd, 0) {
+					capturing[mc] = true
+				}
+				// captured by reference: the variable holding the looked-up lambda
+				if al, ok := bd.(*ssa.Alloc); ok {
+					for _, ref := range *al.Referrers() {
+						if s2, ok := ref.(*ssa.Store); ok && s2.Addr == ssa.Value(al) && core.IsNamed(s2.Val.Type(), core.SlipPath, "Lambda") && fromMapLookup(s2.Val, 0) {
+							capturing[mc] = true
+						}
+					}
+				}
+			}
+		}
+	}
+	n := 0
+	for _, b := range fn.Blocks {
+		for _, in := range b.Instrs {
+			st, ok := in.(*ssa.Store)
+			if !ok {
+				continue
+			}
+			fa, ok := st.Addr.(*ssa.FieldAddr)
+			if !ok || fieldName(fa) != "Create" || !core.IsNamed(fa.X.Type(), core.SlipPath, "FuncInfo") {
+				continue
+			}
+			n++
+			// the stored value: a phi of the parameter (no lambda registered yet) and the capturing closure
+			okv := false
+			var visit func(v ssa.Value, depth int)
+			seen := map[ssa.Value]bool{}
+			visit = func(v ssa.Value, depth int) {
+				if depth > 6 || seen[v] {
+					return
+				}
+				seen[v] = true
+				switch x := v.(type) {
+				case *ssa.Phi:
+					for _, e := range x.Edges {
+						visit(e, depth+1)
+					}
+				case *ssa.MakeClosure:
+					if capturing[x] {
+						okv = true
+					}
+				case *ssa.UnOp:
+					if al, ok := x.X.(*ssa.Alloc); ok {
+						for _, ref := range *al.Referrers() {
+							if s2, ok := ref.(*ssa.Store); ok && s2.Addr == ssa.Value(al) {
+								visit(s2.Val, depth+1)
+							}
+						}
+					}
+				}
+			}
+			visit(st.Val, 0)
+			r.Decide(okv, rule, fmt.Sprintf("slip.(Package).DefLambda|FuncInfo.Create store #%d", n), c.Pos(st.Pos()), fmt.Sprintf("the creator registered can be the closure that binds new calls to the lambda already registered: %v", okv))
+		}
+	}
 }
